@@ -135,13 +135,20 @@ fn resolve_text(text: &str, digest_of: &dyn Fn(usize) -> Option<String>) -> Stri
             while j < b.len() && b[j].is_ascii_digit() {
                 j += 1;
             }
-            if j > i + 2 && j < b.len() && b[j] == b'"' {
+            // optional suffix after the index ("@3=" = digest of disclosure 3 followed by '='):
+            // strings that merely *look like* the digest
+            let mut k = j;
+            while k < b.len() && (b[k] == b'=' || b[k] == b' ' || b[k] == b'.') {
+                k += 1;
+            }
+            if j > i + 2 && k < b.len() && b[k] == b'"' {
                 if let Ok(n) = text[i + 2..j].parse::<usize>() {
                     if let Some(d) = digest_of(n) {
                         out.push('"');
                         out.push_str(&d);
+                        out.push_str(&text[j..k]);
                         out.push('"');
-                        i = j + 1;
+                        i = k + 1;
                         continue;
                     }
                 }
@@ -209,11 +216,15 @@ fn find_refs(text: &str) -> Vec<usize> {
             while j < b.len() && b[j].is_ascii_digit() {
                 j += 1;
             }
-            if j > i + 2 && j < b.len() && b[j] == b'"' {
+            let mut k = j;
+            while k < b.len() && (b[k] == b'=' || b[k] == b' ' || b[k] == b'.') {
+                k += 1;
+            }
+            if j > i + 2 && k < b.len() && b[k] == b'"' {
                 if let Ok(n) = text[i + 2..j].parse::<usize>() {
                     out.push(n);
                 }
-                i = j;
+                i = k;
             }
         }
         i += 1;
